@@ -382,11 +382,20 @@ func (p *parser) substituteAmpersandsInCompoundSelector(
 			// ".foo { :hover & {} }" => ":hover .foo {}"
 			// ".foo .bar { &:hover {} }" => ".foo .bar:hover {}"
 			last := len(replacement.Selectors) - 1
-			results = append(results, replacement.Selectors[:last]...)
+			prefix := replacement.Selectors[:last]
 			single = replacement.Selectors[last]
 			if strip == stripLeadingCombinator {
-				single.Combinator = css_ast.Combinator{}
+				// Only strip the combinator in front of the whole replacement, not
+				// the one in front of its last compound selector:
+				// ".a { + .b { :is(&) {} } }" => ":is(.a + .b) {}"
+				if last == 0 {
+					single.Combinator = css_ast.Combinator{}
+				} else if prefix[0].Combinator.Byte != 0 {
+					prefix = append([]css_ast.CompoundSelector{}, prefix...)
+					prefix[0].Combinator = css_ast.Combinator{}
+				}
 			}
+			results = append(results, prefix...)
 			sel.Combinator = single.Combinator
 		} else if len(replacement.Selectors) == 1 {
 			// ".foo { > &:hover {} }" => ".foo > .foo:hover {}"
